@@ -8,7 +8,7 @@ From Coq Require Import List Arith NArith Bool Lia ZifyBool ZifyN ZifyNat.
 Import ListNotations.
 From RX Require Import Generated.
 From RX.Model Require Import Base CharClass Stream Tokenizer.
-From RX.Proofs Require Import Tactics NoPanicUtf8 NoPanicStream NoPanicTokenizer.
+From RX.Proofs Require Import Tactics NoPanicUtf8 NoPanicStream NoPanicTokenizer PubidChar.
 Open Scope N_scope.
 
 Definition TokOk2 (text : bytes) (tok : token) : Prop :=
@@ -129,7 +129,7 @@ Qed.
 Lemma parse_misc_safe s c : SInv s -> Iout c -> safeA (parse_misc text C ev s c) (PostS s).
 Proof. apply parse_misc_loop_safe. Qed.
 
-Lemma parse_attribute_safe s : SInv s -> safe (parse_attribute text s) (Ext s).
+Lemma parse_attribute_safe s : SInv s -> safe (parse_attribute text s) (fun r => Ext s (snd r)).
 Proof.
   intros Hs. unfold parse_attribute.
   eapply safe_bind; [eapply consume_qname_safe; eauto|]. intros [[p l] s1] [H1 _]. cbv beta iota.
@@ -137,7 +137,14 @@ Proof.
   eapply safe_bind; [eapply consume_quote_safe; eauto|]. intros [q s3] (H3 & Hq & _). cbv beta iota.
   eapply safe_bind; [eapply skip_chars_safe; eauto|]. intros s4 H4. cbv beta.
   eapply safe_bind; [eapply slice_back_safe; eauto; [apply H4|lia]|]. intros sl _.
-  eapply safe_mono; [eapply consume_byte_safe; eauto|]. intros s5 H5. ext.
+  eapply safe_bind; [eapply consume_byte_safe; eauto|]. intros s5 H5. cbn. ext.
+Qed.
+
+Lemma parse_pseudo_attribute_safe name s : SInv s -> safe (parse_pseudo_attribute text name s) (Ext s).
+Proof.
+  intros Hs. unfold parse_pseudo_attribute. cbv zeta.
+  eapply safe_bind; [eapply parse_attribute_safe; eauto|]. intros [[p l] s1] H1. cbn [snd] in H1. cbv beta iota.
+  destruct (negb (slice_len p =? 0) || _); [apply err_from_safe; auto|]. cbn. exact H1.
 Qed.
 
 Lemma decl_consume_spaces_safe s : SInv s -> safe (decl_consume_spaces text s) (Ext s).
@@ -159,19 +166,51 @@ Proof.
   eapply safe_bind; [eapply decl_consume_spaces_safe; eauto|]. intros s2 H2. cbv beta.
   destruct (starts_with s2 (b "version")); cbn [negb].
   2:{ eapply safe_mono; [eapply skip_string_safe; eauto; reflexivity|]. intros s3 H3. ext. }
-  eapply safe_bind; [eapply parse_attribute_safe; eauto|]. intros s3 H3. cbv beta.
+  eapply safe_bind; [eapply parse_pseudo_attribute_safe; eauto|]. intros s3 H3. cbv beta.
   eapply safe_bind; [eapply decl_consume_spaces_safe; eauto|]. intros s4 H4. cbv beta.
   eapply safe_bind with (Q := Ext s4).
   { destruct (starts_with s4 (b "encoding")); [|cbn; eauto].
-    eapply safe_bind; [eapply parse_attribute_safe; eauto|]. intros s5 H5.
+    eapply safe_bind; [eapply parse_pseudo_attribute_safe; eauto|]. intros s5 H5.
     eapply safe_mono; [eapply decl_consume_spaces_safe; eauto|]. intros s6 H6. ext. }
   intros s5 H5. cbv beta.
   eapply safe_bind with (Q := Ext s5).
   { destruct (starts_with s5 (b "standalone")); [|cbn; eauto].
-    eapply parse_attribute_safe; eauto. }
+    eapply parse_pseudo_attribute_safe; eauto. }
   intros s6 H6. cbv beta zeta.
   pose proof (skip_spaces_safe text Hvalid s6 ltac:(eauto)) as H7.
   eapply safe_mono; [eapply skip_string_safe; eauto; reflexivity|]. intros s8 H8. ext.
+Qed.
+
+Lemma consume_bytes_not_sl q s : ascii q = true -> SInv s ->
+  safe (consume_bytes text (fun x => negb (x =? q)) s)
+       (fun '(sl, s') => Ext s s' /\ sl = {| sl_start := s_pos s; sl_end := s_pos s' |}).
+Proof.
+  intros Hq Hs. unfold consume_bytes. pose proof (skip_bytes_not text s q Hq Hs) as HE.
+  eapply safe_bind; [apply slice_back_safe; try apply HE; apply Hs|].
+  intros sl ->. cbn. auto.
+Qed.
+
+Lemma parse_external_literal_safe s : SInv s -> safe (parse_external_literal text s) (Ext s).
+Proof.
+  intros Hs. unfold parse_external_literal.
+  eapply safe_bind; [eapply consume_quote_safe; eauto|]. intros [q s3] (H3 & Hq & _). cbv beta iota zeta.
+  eapply safe_bind; [eapply consume_bytes_not_sl; eauto|]. intros [value s4] [H4 ->]. cbv beta iota.
+  eapply safe_bind; [eapply is_xml_str_safe; eauto; [apply H3|apply H4|apply H4]|]. intros _ _.
+  eapply safe_mono; [eapply consume_byte_safe; eauto|]. intros s5 H5. ext.
+Qed.
+
+Lemma parse_pubid_literal_safe s : SInv s -> safe (parse_pubid_literal text s) (Ext s).
+Proof.
+  intros Hs. unfold parse_pubid_literal.
+  eapply safe_bind; [eapply consume_quote_safe; eauto|]. intros [q s3] (H3 & Hq & _). cbv beta iota zeta.
+  assert (H4 : Ext s3 (skip_bytes (fun x => negb (x =? q) && pubid_char x) s3)).
+  { apply (skip_bytes_ascii text Hvalid); [|eauto]. intros x Hx. unfold ascii.
+    apply pubid_char_ltb128. cbv beta in Hx. apply andb_true_iff in Hx. apply Hx. }
+  set (s4 := skip_bytes _ s3) in *.
+  eapply safe_bind; [apply (curr_byte_safe text); apply H4|]. intros x (r & Hr & Hlt). cbv beta.
+  destruct (negb (x =? q)) eqn:E; [apply err_at_safe; eauto|].
+  assert (x = q) by lia. subst x.
+  eapply safe_mono; [eapply (advance1_safe text Hvalid); eauto|]. intros s5 H5. ext.
 Qed.
 
 Lemma parse_external_id_safe s : SInv s ->
@@ -188,14 +227,11 @@ Proof.
   intros s1 H1. cbv beta.
   eapply safe_bind; [eapply slice_back_safe; eauto; [apply Hs|apply H1]|]. intros id _.
   eapply safe_bind; [eapply consume_spaces_safe; eauto|]. intros s2 H2. cbv beta.
-  eapply safe_bind; [eapply consume_quote_safe; eauto|]. intros [q s3] (H3 & Hq & _). cbv beta iota.
-  eapply safe_bind; [eapply consume_bytes_not; eauto|]. intros [sl s4] H4. cbv beta iota.
-  eapply safe_bind; [eapply consume_byte_safe; eauto|]. intros s5 H5. cbv beta.
-  destruct (bytes_eqb _ _). { cbn. ext. }
+  destruct (bytes_eqb _ _).
+  { eapply safe_bind; [eapply parse_external_literal_safe; eauto|]. intros s3 H3. cbn. ext. }
+  eapply safe_bind; [eapply parse_pubid_literal_safe; eauto|]. intros s3 H3. cbv beta.
   eapply safe_bind; [eapply consume_spaces_safe; eauto|]. intros s6 H6. cbv beta.
-  eapply safe_bind; [eapply consume_quote_safe; eauto|]. intros [q' s7] (H7 & Hq' & _). cbv beta iota.
-  eapply safe_bind; [eapply consume_bytes_not; eauto|]. intros [sl' s8] H8. cbv beta iota.
-  eapply safe_bind; [eapply consume_byte_safe; eauto|]. intros s9 H9. cbn. ext.
+  eapply safe_bind; [eapply parse_external_literal_safe; eauto|]. intros s9 H9. cbn. ext.
 Qed.
 
 Lemma parse_entity_def_safe s is_ge : SInv s ->
@@ -219,6 +255,7 @@ Proof.
   destruct is_ge; [|cbn; auto].
   cbv zeta. pose proof (skip_spaces_safe text Hvalid s1 ltac:(eauto)) as H2.
   destruct (starts_with (skip_spaces s1) (b "NDATA")) eqn:E; [|cbn; split; [ext|exact I]].
+  destruct (negb (starts_with_space s1)); [apply err_at_safe; eauto|].
   eapply safe_bind; [eapply (advance_kw text Hvalid (b "NDATA")); eauto; reflexivity|].
   intros s3 H3. cbv beta.
   eapply safe_bind; [eapply consume_spaces_safe; eauto|]. intros s4 H4. cbv beta.
